@@ -96,6 +96,14 @@ func (s *FuzzServiceStub) ImportBlock(block types.Block) (types.StateRoot, error
 		}
 	}
 
+	// The block the import runs on: if the block is rejected the node rolls back to it.
+	var headBeforeImport *types.HeaderHash
+	if len(cs.GetBlocks()) > 0 {
+		if hh, err := hash.ComputeBlockHeaderHash(cs.GetLatestBlock().Header); err == nil {
+			headBeforeImport = &hh
+		}
+	}
+
 	cs.AddBlock(block)
 	logger.Infof("%s Block 0x%x... added for ImportBlock", ctx, headerHash[:8])
 
@@ -113,6 +121,14 @@ func (s *FuzzServiceStub) ImportBlock(block types.Block) (types.StateRoot, error
 		// The returned state root is discarded by the server (it replies with
 		// an ErrorMessage), so there is no need to compute the prior root here.
 		logger.Errorf("%s [PROTOCOL] block invalid: %v", ctx, err)
+		// Roll the rejected block back: it must not stay the latest block (a later block
+		// naming it as parent would be applied on the head state) nor leave partial writes
+		// of the failed transition in the in-memory prior state.
+		if headBeforeImport != nil {
+			if rbErr := cs.RestoreBlockAndState(*headBeforeImport); rbErr != nil {
+				logger.Errorf("%s failed to roll back rejected block: %v", ctx, rbErr)
+			}
+		}
 		return types.StateRoot{}, err
 	}
 
